@@ -73,7 +73,7 @@ def build_cards(kind, cards):
     return cvrs, mvrs
 
 
-def build_assertion(kind, audit_type, use_style, n_cards, test=None, estim=None, test_kwargs=None):
+def build_assertion(kind, audit_type, use_style, n_cards, test=None, estim=None, test_kwargs=None, keep_all=False):
     scf = Contest.SOCIAL_CHOICE_FUNCTION.PLURALITY if kind == "plurality" else (
         Contest.SOCIAL_CHOICE_FUNCTION.SUPERMAJORITY if kind in SM else Contest.SOCIAL_CHOICE_FUNCTION.IRV)
     js = None
@@ -89,7 +89,8 @@ def build_assertion(kind, audit_type, use_style, n_cards, test=None, estim=None,
     cons = {CID: con}
     Assertion.make_all_assertions(cons)
     name, asn = next(iter(con.assertions.items()))
-    con.assertions = {name: asn}  # one assertion under study (plurality builds "A v B" and "A v C")
+    if not keep_all:
+        con.assertions = {name: asn}  # one assertion under study (plurality builds "A v B" and "A v C")
     audit = Audit.from_dict({"strata": {"s": {"max_cards": max(1, n_cards), "use_style": use_style, "replacement": False}}})
     return con, asn, audit
 
@@ -108,16 +109,17 @@ def ref_upper(kind):
     return 1 / (2 * SM[kind][1]) if kind in SM else F(1)
 
 
-def workflow(kind, cards, use_style, audit_type=Audit.AUDIT_TYPE.ONEAUDIT, via_all=False, add_pool=True):
+def workflow(kind, cards, use_style, audit_type=Audit.AUDIT_TYPE.ONEAUDIT, via_all=False, add_pool=True, keep_all=False):
     """the documented preparation on real objects; returns dict with everything the oracles need"""
     cvrs, mvrs = build_cards(kind, cards)
-    con, asn, audit = build_assertion(kind, audit_type, use_style, len(cards))
+    con, asn, audit = build_assertion(kind, audit_type, use_style, len(cards), keep_all=keep_all)
     with warnings.catch_warnings():
         warnings.simplefilter("ignore")
         if add_pool:  # the documented ONEAudit preparation; without it a pooled batch may hold cards of several styles
             tally_pools = CVR.pool_contests(cvrs)
             CVR.add_pool_contests(cvrs, tally_pools)
-        asn.assorter.set_tally_pool_means(cvr_list=cvrs, tally_pools=None, use_style=use_style)
+        for a_ in con.assertions.values():
+            a_.assorter.set_tally_pool_means(cvr_list=cvrs, tally_pools=None, use_style=use_style)
         under = [i for i, c in enumerate(cvrs) if (c.has_contest(CID) or not use_style)]
         if not under:
             return {"under": [], "cvrs": cvrs, "mvrs": mvrs, "asn": asn, "con": con, "audit": audit}
